@@ -400,6 +400,7 @@ func checkC18(r *Run) propMeta {
 	checkScanTotals(r, p)
 	checkInjectiveNaming(r, p)
 	checkNumberPreservingDecode(r, p)
+	checkIntegerBeforeFloat(r, p)
 	checkLineLimitAgreement(r, p)
 	checkNodeIDsNotNarrowed(r, "C18-R9-ids-not-narrowed", p)
 	checkEndpointArgumentRoles(r, p)
